@@ -143,6 +143,11 @@ pub fn check(tape: &[u32]) -> CheckResult {
     if t.chance(1, 4) {
         crate::encode::junk_zindex(&mut enc, &mut crate::encode::Rng(t.raw64()));
     }
+    // the header flags word in all combinations of bits 0 and 1 ("layer opacity is valid", "groups have their own
+    // blend mode and opacity"): whatever a reader makes of them, the routes to a cel must agree and a frame with one
+    // visible cel must equal that cel's image
+    let hf = [1u32, 1, 0, 2, 3][t.below(5) as usize];
+    enc.bytes[14..18].copy_from_slice(&hf.to_le_bytes());
     let detail = || json!({"model": super::c01::summarize(&s), "input_hex": if enc.bytes.len() < 8000 { hex(&enc.bytes) } else { String::new() }});
     let f = AsepriteFile::read(&enc.bytes[..]).map_err(|e| Failure::new("load-error", format!("well-formed file failed to load: {}", e)).with(detail()))?;
     let (pairs, nontrivial) = check_file(&f).map_err(|e| e.with(detail()))?;
